@@ -19,7 +19,7 @@ Section Generic.
   Lemma bis_body_ok s s' b : bis_body f tol cap s = Ok (s', b) ->
     exists vl vm, f (bs_lower s) = Ok vl /\ f (bis_mid s) = Ok vm /\
       bs_iter s' = bs_iter s /\
-      b = (bs_exact s' || (Nat.ltb 0 (bs_iter s) && nltb (nabs (bs_err s')) tol) || Nat.leb cap (bs_iter s)) /\
+      b = (bs_exact s' || (Nat.ltb 0 (bs_iter s) && err_small (bs_err s') tol) || Nat.leb cap (bs_iter s)) /\
       ( (nltb (nmul vl vm) n0 = true /\ bs_lower s' = bs_lower s /\ bs_upper s' = bis_mid s /\
          bs_x s' = bis_mid s /\ bs_exact s' = false)
      \/ (nltb (nmul vl vm) n0 = false /\ nltb n0 (nmul vl vm) = true /\ bs_lower s' = bis_mid s /\
@@ -536,59 +536,3 @@ Proof.
   unfold s_eval_univariate. rewrite px2m4_eval. f_equal. ring.
 Qed.
 
-(* ------------------------------------------------------------------------- *)
-(* why the converse half is only partial: the exact-arithmetic model itself   *)
-(* returns NoConvergence on a bracketed simple root (finding F-C06-STALE-ZERO): *)
-(* x - 1/2 on [-3, 1] with init = -1 (the first midpoint), cap 1200.  Iteration *)
-(* 0 measures a zero change but may not stop (iter > 0 is required); iteration *)
-(* 1 has midpoint 0, keeps the stale 0 and stops at x = 0.                    *)
-(* ------------------------------------------------------------------------- *)
-Ltac rbool :=
-  repeat match goal with
-  | |- context [Rltb ?a ?b] =>
-      first [ replace (Rltb a b) with true by (symmetry; apply Rltb_true; lra)
-            | replace (Rltb a b) with false by (symmetry; apply Rltb_false; lra) ]
-  | |- context [Reqb ?a ?b] =>
-      first [ replace (Reqb a b) with true by (symmetry; apply Reqb_true; lra)
-            | replace (Reqb a b) with false by (symmetry; apply Reqb_false; lra) ]
-  end.
-
-Lemma bis_loop_break {T} {NT : Num T} (f : T -> res T) tol cap fuel s s' :
-  bis_body f tol cap s = Ok (s', true) -> bis_loop f tol cap fuel s = Ok s'.
-Proof. intro H. destruct fuel; cbn [bis_loop]; rewrite H; reflexivity. Qed.
-
-Lemma bis_loop_continue {T} {NT : Num T} (f : T -> res T) tol cap fuel s s' :
-  bis_body f tol cap s = Ok (s', false) -> bis_loop f tol cap (S fuel) s = bis_loop f tol cap fuel (bs_next s').
-Proof. intro H. cbn [bis_loop]. rewrite H. reflexivity. Qed.
-
-Lemma c06_converse_counterexample :
-  bisection (fun x => Ok (x - 1 / 2)) {| b_lower := -3; b_init := -1; b_upper := 1 |} (1 / 100000) 1200
-    = Err ENoConvergence.
-Proof.
-  unfold bisection, init_out. cbn [b_lower b_init b_upper nltb RNum]. rbool. cbn [orb].
-  unfold bisect_run.
-  set (f := fun x : R => Ok (x - 1 / 2)).
-  set (s1 := {| bs_iter := 0; bs_lower := -1; bs_upper := 1; bs_x := -1; bs_err := 0; bs_exact := false |}).
-  set (s2 := {| bs_iter := 1; bs_lower := 0; bs_upper := 1; bs_x := 0; bs_err := 0; bs_exact := false |}).
-  assert (H1 : bis_body f (1 / 100000) 1200 (bis_start {| b_lower := -3; b_init := -1; b_upper := 1 |}) = Ok (s1, false)).
-  { unfold bis_body, bis_start, nneb, f.
-    cbn [bs_iter bs_lower bs_upper bs_x bs_err bs_exact b_lower b_init b_upper bind nadd nsub ndiv nmul nabs neqb nltb n0 RNum].
-    change (@ntwo R RNum) with 2.
-    replace ((-3 + 1) / 2) with (-1) by field.
-    replace (-1 - -1) with 0 by ring. rewrite Rabs_R0.
-    replace (0 / -1 * c100) with 0 by (rewrite c100_R; field).
-    rbool. cbn [negb]. rbool. reflexivity. }
-  assert (H2 : bis_body f (1 / 100000) 1200 (bs_next s1) = Ok (s2, true)).
-  { unfold bis_body, bs_next, s1, nneb, f.
-    cbn [bs_iter bs_lower bs_upper bs_x bs_err bs_exact bind nadd nsub ndiv nmul nabs neqb nltb n0 RNum].
-    change (@ntwo R RNum) with 2.
-    replace ((-1 + 1) / 2) with 0 by field.
-    rbool. cbn [negb]. rbool. cbn [bs_exact bs_err nabs RNum].
-    rewrite Rabs_R0. rbool. reflexivity. }
-  change 1200%nat with (S 1199) at 2.
-  rewrite (bis_loop_continue f _ _ _ _ _ H1), (bis_loop_break f _ _ _ _ _ H2).
-  cbn [bind]. unfold s2 at 1. cbn [bs_iter Nat.leb]. unfold s2, f. cbn [bs_x bind nltb nabs RNum].
-  rewrite gate_R.
-  replace (Rabs (0 - 1 / 2)) with (1 / 2) by (rewrite Rabs_left; lra).
-  rbool. reflexivity.
-Qed.
